@@ -471,6 +471,10 @@ func (p *Prog) Paths(entry *ssa.Function, opts PSOpts) []*Path {
 				continue
 			}
 		}
+		// likewise an iteration that only writes to the debug log (and changes no loop-carried variable)
+		if pa.End == "iter" && x.onlyLogs(pa) {
+			continue
+		}
 		kept = append(kept, pa)
 	}
 	x.paths = kept
@@ -1680,7 +1684,7 @@ func (x *explorer) instr(st *state, fr *frame, in ssa.Instruction) {
 			x.set(st, fr, ins, x.fieldOfValue(st, base, structFieldKey(ins.X.Type(), ins.Field), ins, concreteType(ins.Type())))
 			return
 		}
-		x.set(st, fr, ins, &T{Op: "field", Name: st0.Field(ins.Field).Name(), Args: []*T{base}, V: ins})
+		x.set(st, fr, ins, &T{Op: "field", Name: pinnedField(st0, ins.Field), Args: []*T{base}, V: ins})
 	case *ssa.Slice:
 		base := x.val(st, fr, ins.X)
 		if base.Op == "addr" && base.Name == "array" {
@@ -2348,6 +2352,37 @@ func (x *explorer) keysOfMap(t *T) *T {
 	return m
 }
 
+// onlyLogs: inside its loop the iteration does nothing but call the log package, and every loop-carried
+// variable keeps its value (or is the loop's own index).
+func (x *explorer) onlyLogs(pa *Path) bool {
+	n := 0
+	for _, e := range pa.Effects {
+		in := false
+		for _, l := range e.Loops {
+			if l == pa.Loop {
+				in = true
+			}
+		}
+		if !in {
+			continue
+		}
+		if e.Kind == "extcall" && strings.HasPrefix(e.Callee, "log.") {
+			n++
+			continue
+		}
+		return false
+	}
+	if n == 0 {
+		return false
+	}
+	for id, v := range pa.Carried {
+		if !(v.Op == "carried" && v.N == id) && v.Op != "idx" {
+			return false
+		}
+	}
+	return true
+}
+
 // onlyCollectsKeys: every loop-carried update of the iteration is the identity, the range index, or the append
 // of the current map key to a list that holds exactly the keys of that map.
 func (x *explorer) onlyCollectsKeys(pa *Path) bool {
@@ -2498,7 +2533,7 @@ func simplifyBool(guards []Atom, t *T, depth int) *T {
 // structFieldKey: the qualified name FieldAddr-based stores use for field i of struct type t.
 func structFieldKey(t types.Type, i int) string {
 	stt := t.Underlying().(*types.Struct)
-	name := stt.Field(i).Name()
+	name := pinnedField(stt, i)
 	if nt, ok := t.(*types.Named); ok {
 		pk := ""
 		if nt.Obj().Pkg() != nil {
